@@ -381,6 +381,10 @@ Fixpoint key_ok (t : ty) : bool :=
   | TSeq _ _ => false
   | TArray _ t' => key_ok t'
   | TProd k ts =>
+      (* SocketAddrV6: Rust's Ord / Hash / Eq also look at flowinfo and scope_id, which the format does not
+         carry - two keys can differ only there and collide after a round trip (finding F22); like a struct
+         with a skipped field it is not a key type of the model (SocketAddr contains it) *)
+      negb (match k with PSockV6 => true | _ => false end) &&
       (forallb negb (prod_skips k (length ts))) && forallb (fun x => key_ok x) ts
   | TSum _ vs => forallb (fun x => key_ok x) vs
   | TWrap (WBox | WRc | WArc | WCow) t' => key_ok t'     (* Ord and Hash delegate to the contents *)
